@@ -18,9 +18,9 @@ import (
 
 func init() { commands["c07"] = c07 }
 
-type discardCount struct{ n int }
+type discardCount struct{ n int ; last int }
 
-func (d *discardCount) Write(p []byte) (int, error) { d.n++; return len(p), nil }
+func (d *discardCount) Write(p []byte) (int, error) { d.n++; d.last = len(p); return len(p), nil }
 
 type pObj struct {
 	a string
@@ -707,6 +707,78 @@ func c07(args []string) int {
 		}
 		out.Case(rng.HashStr(fmt.Sprint("seq", c, names, len(big), lgi)), true)
 		out.Count("large_then_small_sequences", 1)
+	}
+	// typed slices of hundreds to thousands of elements whose encoded size stays below the 64 KiB buffer limit: once the
+	// pooled buffer has grown, such events are allocation-free as well (shard 0 only: a fixed list)
+	if f.Shard == 0 {
+		for _, n := range []int{100, 1000, 2500, 3200, 4000, 5000, 5600, 6000} {
+			ints := make([]int, n)
+			i8 := make([]int8, n)
+			i16 := make([]int16, n)
+			i32 := make([]int32, n)
+			i64 := make([]int64, n)
+			u := make([]uint, n)
+			u8 := make([]uint8, n)
+			u16 := make([]uint16, n)
+			u32 := make([]uint32, n)
+			u64 := make([]uint64, n)
+			f32 := make([]float32, n)
+			f64 := make([]float64, n)
+			bs := make([]bool, n)
+			ss := make([]string, n)
+			ds := make([]time.Duration, n)
+			for j := 0; j < n; j++ {
+				ints[j], i8[j], i16[j], i32[j], i64[j] = j-7, int8(j), int16(j*3), int32(j*1000), int64(j)*100000
+				u[j], u8[j], u16[j], u32[j], u64[j] = uint(j), uint8(j), uint16(j*5), uint32(j*70000), uint64(j)*9
+				f32[j], f64[j] = float32(j)/4, float64(j)/8
+				bs[j] = j%3 == 0
+				ss[j] = "s"
+				ds[j] = time.Duration(j) * time.Millisecond
+			}
+			kinds := []struct {
+				name string
+				fn   func(e *zerolog.Event) *zerolog.Event
+			}{
+				{"Ints", func(e *zerolog.Event) *zerolog.Event { return e.Ints("k", ints) }},
+				{"Ints8", func(e *zerolog.Event) *zerolog.Event { return e.Ints8("k", i8) }},
+				{"Ints16", func(e *zerolog.Event) *zerolog.Event { return e.Ints16("k", i16) }},
+				{"Ints32", func(e *zerolog.Event) *zerolog.Event { return e.Ints32("k", i32) }},
+				{"Ints64", func(e *zerolog.Event) *zerolog.Event { return e.Ints64("k", i64) }},
+				{"Uints", func(e *zerolog.Event) *zerolog.Event { return e.Uints("k", u) }},
+				{"Uints8", func(e *zerolog.Event) *zerolog.Event { return e.Uints8("k", u8) }},
+				{"Uints16", func(e *zerolog.Event) *zerolog.Event { return e.Uints16("k", u16) }},
+				{"Uints32", func(e *zerolog.Event) *zerolog.Event { return e.Uints32("k", u32) }},
+				{"Uints64", func(e *zerolog.Event) *zerolog.Event { return e.Uints64("k", u64) }},
+				{"Floats32", func(e *zerolog.Event) *zerolog.Event { return e.Floats32("k", f32) }},
+				{"Floats64", func(e *zerolog.Event) *zerolog.Event { return e.Floats64("k", f64) }},
+				{"Bools", func(e *zerolog.Event) *zerolog.Event { return e.Bools("k", bs) }},
+				{"Strs", func(e *zerolog.Event) *zerolog.Event { return e.Strs("k", ss) }},
+				{"Durs", func(e *zerolog.Event) *zerolog.Event { return e.Durs("k", ds) }},
+			}
+			for ki, kd := range kinds {
+				lg := &loggers[(ki+n)%len(loggers)]
+				if lg.disabled {
+					lg = &loggers[1]
+				}
+				sink := w
+				fn := func() { kd.fn(lg.l.Info()).Msg("m") }
+				for w := 0; w < 20; w++ {
+					fn()
+				}
+				if sink.last > 56000 {
+					// the pool keeps buffers of up to 64 KiB capacity; append's growth takes the capacity of a buffer past
+					// that limit once more than 57 344 bytes (the size class below) are needed: such events are outside
+					// "stays within the pooled buffer" (measured: 17 allocs/event at 58 922 bytes)
+					continue
+				}
+				if a := testing.AllocsPerRun(30, fn); a >= 1 {
+					out.Violate("allocs:long-slice:"+kd.name, fmt.Sprintf("logger=%s Info().%s(k, %d elements).Msg(..) (%d bytes encoded) costs %.1f allocs/event once warm", lg.name, kd.name, n, sink.last, a),
+						map[string]interface{}{"check": "c07", "kind": kd.name, "elements": n})
+				}
+				out.Count("long_slice_events_measured", 1)
+				out.Evaluations++
+			}
+		}
 	}
 	out.Count("bytes_steps_longer_than_32_needing_escapes_generated", longEscapedBytes)
 	out.Extra["binary_log_build"] = isBinaryBuild()
